@@ -75,6 +75,8 @@ pub enum Step {
     Snap { r: u8 },
     Restore { sel: u32 },
     Sticky { r: u8, ty: u32, pos: u32, after: bool, edge: u8 },
+    /// undo (or redo) the last captured local transaction of replica r (only when the profile gives replicas an undo manager)
+    Undo { r: u8, redo: bool },
     Probe { a: u8, b: u8, x: u32, y: u32 },
 }
 
@@ -112,6 +114,7 @@ pub struct Profile {
     pub w_syncall: u32,
     pub w_recsv: u32,
     pub w_probe: u32,
+    pub w_undo: u32,
     /// call weights: [text insert, insert+attr, embed, format, text remove, delta, push,
     ///  array insert, array range, array push, array remove,
     ///  map insert, try_update, map remove, clear, get_or_init,
@@ -177,6 +180,7 @@ impl Profile {
             w_syncall: 2,
             w_recsv: 2,
             w_probe: 0,
+            w_undo: 0,
             calls: [12, 5, 3, 6, 6, 2, 2, 5, 5, 2, 5, 6, 1, 3, 1, 1, 3, 2, 2, 1, 0, 0],
             nested: 15,
             subdocs: true,
@@ -332,7 +336,7 @@ pub fn gen_program(rng: &mut Rng, p: &Profile) -> Program {
     let mut steps = vec![];
     let w = [
         p.w_txn, p.w_deliver, p.w_merge, p.w_relay, p.w_gc, p.w_snap, p.w_restore, p.w_sticky, p.w_syncall,
-        p.w_recsv, p.w_probe,
+        p.w_recsv, p.w_probe, p.w_undo,
     ];
     if rng.u32(0..100) < p.lockstep_pct {
         for _ in 0..nsteps {
@@ -380,6 +384,7 @@ pub fn gen_program(rng: &mut Rng, p: &Profile) -> Program {
             8 => Step::SyncAll,
             9 => Step::RecSv { r },
             10 => Step::Probe { a: r, b: rng.u8(0..n), x: rng.u32(0..1000), y: rng.u32(0..1000) },
+            11 => Step::Undo { r, redo: rng.u8(0..3) == 0 },
             _ => Step::Deliver { to: r, sel: 0, dup: false, form: 0 },
         };
         steps.push(step);
